@@ -1178,6 +1178,9 @@ fn check(case: &Case, obs: &mut Obs) -> Result<(), Failure> {
         }
     };
     obs.class("analysis-ok");
+    if obs.replay {
+        eprintln!("{}\nreported: {}", function.control_flow_graph(), show_reported(&reported));
+    }
 
     // ---- executions
     let scalars = scalars_of(&view);
